@@ -7,6 +7,7 @@
 package main
 
 import (
+	"bufio"
 	"bytes"
 	"encoding/hex"
 	"errors"
@@ -14,9 +15,12 @@ import (
 	"io"
 	"math/big"
 	"os"
+	"os/exec"
+	"strconv"
 	"reflect"
 	"runtime"
 	"strings"
+	"time"
 
 	geth "github.com/ethereum/go-ethereum/rlp"
 	"github.com/kardiachain/go-kardia/lib/common"
@@ -988,6 +992,182 @@ func genHostile(r *gen.Rand, encs [][]byte, n int) []hostile {
 	return hs
 }
 
+// ---------------------------------------------------------------- guarded decoding of huge declared sizes
+//
+// A decoder that trusts a declared size can die with "fatal error: out of memory", which
+// recover() cannot catch and which would take the whole harness (and the failing input) with
+// it.  Inputs that declare a size above hugeDeclared anywhere are therefore first decoded in a
+// child process whose address space is limited; if the child dies, the input is reported by
+// the direct oracle (class alloc-crash) and is not decoded in-process.
+
+const hugeDeclared = 256 << 20
+
+func declaresHuge(b []byte) bool {
+	for i, t := range b {
+		var n int
+		switch {
+		case t >= 0xb8 && t <= 0xbf:
+			n = int(t - 0xb7)
+		case t >= 0xf8:
+			n = int(t - 0xf7)
+		default:
+			continue
+		}
+		var size uint64
+		for j := 0; j < n && i+1+j < len(b); j++ {
+			size = size<<8 | uint64(b[i+1+j])
+		}
+		if size > hugeDeclared {
+			return true
+		}
+	}
+	return false
+}
+
+func parseType(tok []string) (*T, []string) {
+	switch tok[0] {
+	case "big", "bool", "bytes", "str", "raw", "iface":
+		return &T{K: tok[0]}, tok[1:]
+	case "arr":
+		n, _ := strconv.Atoi(tok[1])
+		return &T{K: "arr", N: n}, tok[2:]
+	case "list", "ptr":
+		e, r := parseType(tok[1:])
+		return &T{K: tok[0], Elem: e}, r
+	case "struct":
+		k, _ := strconv.Atoi(tok[1])
+		t := &T{K: "struct"}
+		r := tok[2:]
+		for i := 0; i < k; i++ {
+			tg := r[0]
+			var ft *T
+			ft, r = parseType(r[1:])
+			f := F{T: ft, Opt: strings.Contains(tg, "o"), Tail: strings.Contains(tg, "t"), Ign: strings.Contains(tg, "i")}
+			switch {
+			case strings.Contains(tg, "n"):
+				f.Nil = "nil"
+			case strings.Contains(tg, "S"):
+				f.Nil = "nilString"
+			case strings.Contains(tg, "L"):
+				f.Nil = "nilList"
+			}
+			t.Fields = append(t.Fields, f)
+		}
+		return t, r
+	}
+	bits, _ := strconv.Atoi(tok[0][1:])
+	return &T{K: "u", Bits: bits}, tok[1:]
+}
+
+// childMain: harness -child ; a worker that reads "<type tokens>\t<hex>" lines, decodes the
+// input into the type, into interface{} and into RawValue, and answers "ok" per line.
+func childMain() {
+	in := bufio.NewReaderSize(os.Stdin, 1<<20)
+	for {
+		line, err := in.ReadString('\n')
+		if err != nil {
+			os.Exit(0)
+		}
+		parts := strings.SplitN(strings.TrimSpace(line), "\t", 2)
+		if len(parts) != 2 {
+			continue
+		}
+		t, _ := parseType(strings.Fields(parts[0]))
+		b, _ := hex.DecodeString(strings.TrimPrefix(parts[1], "-"))
+		for _, tt := range []*T{t, tIface, tRaw} {
+			safeDecode("kai", b, reflect.New(tt.rtype()).Interface())
+		}
+		fmt.Println("ok")
+	}
+}
+
+// one persistent worker process with a limited address space; restarted when it dies
+type guardProc struct {
+	cmd  *exec.Cmd
+	in   io.WriteCloser
+	out  *bufio.Reader
+	errb *bytes.Buffer
+}
+
+var guard *guardProc
+
+func startGuard() *guardProc {
+	cmd := exec.Command("/bin/sh", "-c", `ulimit -v 3000000; exec "$0" -child`, os.Args[0])
+	in, err1 := cmd.StdinPipe()
+	outp, err2 := cmd.StdoutPipe()
+	g := &guardProc{cmd: cmd, in: in, errb: &bytes.Buffer{}}
+	cmd.Stderr = g.errb
+	if err1 != nil || err2 != nil || cmd.Start() != nil {
+		return nil
+	}
+	g.out = bufio.NewReader(outp)
+	return g
+}
+
+// guardedOK decodes b in the worker; false (with the reason) if the worker died on it.
+var guardDeaths int
+
+const maxGuardDeaths = 25
+
+func guardedOK(t *T, b []byte) (bool, string) {
+	if guardDeaths >= maxGuardDeaths {
+		// enough concrete failures recorded; restarting the worker for every further input would
+		// only slow the run down.  The input is neither decoded here nor in-process.
+		return false, "not-run"
+	}
+	if guard == nil {
+		if guard = startGuard(); guard == nil {
+			return true, "" // cannot guard: decode in-process as before
+		}
+	}
+	g := guard
+	res := make(chan string, 1)
+	go func() {
+		if _, err := fmt.Fprintf(g.in, "%s\t%s\n", t.tokens(), hexs(b)); err != nil {
+			res <- "write:" + err.Error()
+			return
+		}
+		l, err := g.out.ReadString('\n')
+		if err != nil {
+			res <- "died:" + err.Error()
+			return
+		}
+		res <- strings.TrimSpace(l)
+	}()
+	var r string
+	select {
+	case r = <-res:
+	case <-time.After(120 * time.Second):
+		r = "timeout"
+	}
+	if r == "ok" {
+		return true, ""
+	}
+	g.cmd.Process.Kill()
+	g.cmd.Wait()
+	guard = nil
+	guardDeaths++
+	msg := g.errb.String()
+	if k := strings.Index(msg, "\n"); k > 0 {
+		msg = msg[:k]
+	}
+	return false, r + " " + msg
+}
+
+// guardHuge returns the indices of the hostile inputs on which the worker process died.
+func guardHuge(t *T, hs []hostile) map[int]string {
+	crashed := map[int]string{}
+	for i, h := range hs {
+		if declaresHuge(h.b) {
+			o.Count("hostile.guarded-in-child")
+			if ok, why := guardedOK(t, h.b); !ok {
+				crashed[i] = why
+			}
+		}
+	}
+	return crashed
+}
+
 // ---------------------------------------------------------------- raw.go ops
 
 func kindStr(k rlp.Kind) string {
@@ -1464,8 +1644,21 @@ func runCase(r *gen.Rand, c int) {
 		}
 	}
 	hs := genHostile(r, encs, 10)
-	for _, h := range hs {
+	crashed := guardHuge(t, hs)
+	for i, h := range hs {
 		o.Count("hostile." + h.kind)
+		if why, bad := crashed[i]; bad && why == "not-run" {
+			step++
+			o.Count("hostile.not-run-after-crashes")
+			o.Op("D "+hexs(h.b), "CRASH-SKIPPED")
+			continue
+		} else if bad {
+			step++
+			o.Count("hostile.crashed-child")
+			o.Fail(step, "alloc-crash", fmt.Sprintf("type=[%s] input=%s (%d bytes) kills a decoding process whose address space is limited to 3 GB: %s", t.tokens(), hexs(h.b), len(h.b), strings.ReplaceAll(why, " ", "_")))
+			o.Op("D "+hexs(h.b), "CRASH")
+			continue
+		}
 		obs := decodeOp(t, h.b, true)
 		o.Op("D "+hexs(h.b), obs)
 		if strings.HasPrefix(obs, "d ok") {
@@ -1478,11 +1671,19 @@ func runCase(r *gen.Rand, c int) {
 		}
 	}
 	o.InOnly("T iface")
-	for _, h := range hs {
+	for i, h := range hs {
+		if _, bad := crashed[i]; bad {
+			o.Op("D "+hexs(h.b), "CRASH")
+			continue
+		}
 		o.Op("D "+hexs(h.b), decodeOp(tIface, h.b, true))
 	}
 	o.InOnly("T raw")
-	for _, h := range hs {
+	for i, h := range hs {
+		if _, bad := crashed[i]; bad {
+			o.Op("D "+hexs(h.b), "CRASH")
+			continue
+		}
 		o.Op("D "+hexs(h.b), decodeOp(tRaw, h.b, false))
 	}
 	for _, h := range hs {
@@ -1498,6 +1699,9 @@ func runCase(r *gen.Rand, c int) {
 }
 
 func main() {
+	if len(os.Args) > 1 && os.Args[1] == "-child" {
+		childMain()
+	}
 	out.WriteFacts(func() string { return "(* C16 has no source-derived constants *)\n" })
 	o = out.Open()
 	o.Rule = "a case is one type descriptor (generated struct/list/pointer/scalar type with rlp tags, or the descriptor of Transaction/Receipt/ReceiptForStorage/StateAccount/SlimAccount) with 3 values (encode, decode, round trip) and 10 hostile strings decoded into the type, into interface{} and into RawValue and fed to Split*/CountValues; non-trivial = every case; distinct by type descriptor"
